@@ -215,16 +215,18 @@ BUNDLES = {
     'structure': 'structural stores under the guarding lock, link / parent pairing, split sibling published last (C08: R-MUL, R-LINK; C06: R-SPL)',
     'writers_revalidate': 'writers act on what they re-validated under the lock (C01: R-WUL)',
     'names': 'name-based entry points resolve the storage first (C13: R-STG)',
+    'gc_safety': 'epoch-based reclamation: who may free, retire tags, GC slack, epoch gating, session publication (C07: R-WMF, R-RET, R-GCG, R-MIN, R-ADV, R-PUB, R-FRESH, R-LVE)',
 }
 SHARED = {
-    'C01': ['version_word', 'permutation_word', 'key_order', 'value_words', 'names'],
+    'C01': ['version_word', 'permutation_word', 'key_order', 'value_words', 'names', 'gc_safety'],
     'C03': ['key_order'],
-    'C04': ['version_word', 'permutation_word', 'descent', 'writers_dirty', 'structure', 'names'],
+    'C04': ['version_word', 'permutation_word', 'descent', 'writers_dirty', 'structure', 'names', 'gc_safety'],
     'C05': ['version_word', 'descent', 'writers_dirty'],
     'C06': ['version_word', 'descent'],
     'C07': ['sessions'],
-    'C10': ['version_word', 'permutation_word', 'descent', 'key_order', 'structure'],
-    'C13': ['writers_revalidate'],
+    'C10': ['version_word', 'permutation_word', 'descent', 'key_order', 'structure', 'gc_safety'],
+    'C13': ['writers_revalidate', 'key_order'],
+    'C15': ['gc_safety'],
     'C11': ['reclamation'],
 }
 
